@@ -124,7 +124,7 @@ func runC01(c *Ctx) {
 				okEl := len(app.Args) == 2 && eng.IsObj(info, app.Args[0], result)
 				if okEl {
 					s, isSel := eng.Unparen(app.Args[1]).(*ast.SelectorExpr)
-					okEl = isSel && s.Sel.Name == "id" && elem != nil && eng.SameExpr(info, s.X, elem) && eng.Contains(loops[0].Body, as)
+					okEl = isSel && eng.NameOf(s.Sel) == "id" && elem != nil && eng.SameExpr(info, s.X, elem) && eng.Contains(loops[0].Body, as)
 				}
 				// membership: _, ok := m[p.state]; ok  with m filled from states
 				var mObj eng.Object
@@ -139,7 +139,7 @@ func runC01(c *Ctx) {
 						return false
 					}
 					s, isSel := eng.Unparen(ix.Index).(*ast.SelectorExpr)
-					if !isSel || s.Sel.Name != "state" || elem == nil || !eng.SameExpr(info, s.X, elem) {
+					if !isSel || eng.NameOf(s.Sel) != "state" || elem == nil || !eng.SameExpr(info, s.X, elem) {
 						return false
 					}
 					mObj = eng.ObjOf(info, ix.X)
@@ -203,18 +203,10 @@ func runC01(c *Ctx) {
 		okSort := len(sc) == 1
 		if okSort {
 			// the only way around the sort is the `sorted` flag
-			for _, ret := range scf.Returns() {
-				if scf.Dominates(scf.LocOf(sc[0]), scf.LocOf(ret)) {
-					continue
-				}
-				g, _ := scf.Guarded(scf.LocOf(ret), func(ft eng.Fact) bool {
-					_, truth, isB := ft.BoolVar()
-					return isB && truth && eng.IsField(sinfo, ft.Expr, qpsT+".sorted")
-				})
-				if !g {
-					okSort = false
-				}
-			}
+			okSort, _ = passOrFact(scf, scf.Entry(), eng.LocSet(scf.Exits(false)...), []eng.Loc{scf.LocOf(sc[0])}, func(ft eng.Fact) bool {
+				_, truth, isB := ft.BoolVar()
+				return isB && truth && eng.IsField(sinfo, ft.Expr, qpsT+".sorted")
+			})
 		}
 		c.Check(K(s.Name, "sorts unless sorted"), s.Pos(), okSort, "sort() sorts the list unless the sorted flag is set", "a return avoids the sort without the flag")
 		okFlag := false
@@ -261,7 +253,7 @@ func runC01(c *Ctx) {
 						if !isKV {
 							continue
 						}
-						switch kv.Key.(*ast.Ident).Name {
+						switch eng.NameOf(kv.Key.(*ast.Ident)) {
 						case "id":
 							got["id"] = eng.IsObj(tinfo, kv.Value, pp)
 						case "state":
@@ -393,7 +385,8 @@ func runC01(c *Ctx) {
 				f1 = true
 			}
 		}
-		qp := c.Fn("(*dht.query).queryPeer")
+		rc := findRespColl(c)
+		qp := rc.F
 		qinfo := qp.Info()
 		qcf := qp.CFG()
 		var saw eng.Object
@@ -408,7 +401,7 @@ func runC01(c *Ctx) {
 						root := f.Root().Name
 						for _, el := range cl.Elts {
 							kv, isKV := el.(*ast.KeyValueExpr)
-							if !isKV || kv.Key.(*ast.Ident).Name != "heard" {
+							if !isKV || eng.NameOf(kv.Key.(*ast.Ident)) != "heard" {
 								continue
 							}
 							okSrc := false
@@ -416,8 +409,8 @@ func runC01(c *Ctx) {
 							case "(*dht.query).run":
 								okSrc = eng.IsField(info, kv.Value, "dht.query.seedPeers")
 							case "(*dht.query).queryPeer":
-								if o := eng.ObjOf(info, kv.Value); o != nil {
-									saw = o
+								if o := eng.ObjOf(info, kv.Value); o != nil && o == rc.SawQ && rc.Saw != nil {
+									saw = rc.Saw
 									okSrc = true
 								}
 							}
@@ -428,7 +421,7 @@ func runC01(c *Ctx) {
 				return true
 			})
 		}
-		c.Check("queryUpdate literals", 0, len(lits) >= 4, "seed update, two failure updates and the success update exist", "found "+itoa(len(lits)))
+		c.Check("queryUpdate literals", 0, len(lits) >= 2, "seed update, two failure updates and the success update exist", "found "+itoa(len(lits)))
 		f2 := false
 		if c.Check(K(qp.Name, "success update carries response"), qp.Pos(), saw != nil, "the success update carries the peers seen in the response", "no heard list in queryPeer") {
 			napp := 0
@@ -447,17 +440,13 @@ func runC01(c *Ctx) {
 				okEl := false
 				var elemRoot eng.Object
 				if len(app.Args) == 2 {
-					if s, isSel := eng.Unparen(app.Args[1]).(*ast.SelectorExpr); isSel && s.Sel.Name == "ID" {
+					if s, isSel := eng.Unparen(app.Args[1]).(*ast.SelectorExpr); isSel && eng.NameOf(s.Sel) == "ID" {
 						elemRoot = eng.ObjOf(qinfo, s.X)
 						for x := p.Parent(as); x != nil; x = p.Parent(x) {
 							if rg, isR := x.(*ast.RangeStmt); isR && rg.Value != nil && eng.ObjOf(qinfo, rg.Value) == elemRoot {
-								// the ranged list is the queryFn result variable
-								if lo := eng.ObjOf(qinfo, rg.X); lo != nil {
-									for _, d := range qp.AssignedFrom(lo) {
-										if call, isCall := eng.Unparen(defOrNil(d)).(*ast.CallExpr); isCall && eng.CalleeName(qinfo, call) == "field:dht.query.queryFn" {
-											okEl = true
-										}
-									}
+								// the ranged list is the queryFn result variable (or the helper parameter bound to it)
+								if lo := eng.ObjOf(qinfo, rg.X); lo != nil && lo == rc.Resp {
+									okEl = true
 								}
 							}
 						}
@@ -471,7 +460,7 @@ func runC01(c *Ctx) {
 					}
 					isEl := func(e ast.Expr) bool {
 						s, isSel := eng.Unparen(e).(*ast.SelectorExpr)
-						return isSel && s.Sel.Name == "ID" && elemRoot != nil && eng.ObjOf(qinfo, s.X) == elemRoot
+						return isSel && eng.NameOf(s.Sel) == "ID" && elemRoot != nil && eng.ObjOf(qinfo, s.X) == elemRoot
 					}
 					return (isEl(x) && eng.IsField(qinfo, y, "dht.IpfsDHT.self")) || (isEl(y) && eng.IsField(qinfo, x, "dht.IpfsDHT.self"))
 				})
@@ -494,7 +483,7 @@ func runC01(c *Ctx) {
 				so := eng.ObjOf(rinfo, as.Lhs[0])
 				rq.Walk(func(n ast.Node) bool {
 					if kv, ok := n.(*ast.KeyValueExpr); ok {
-						if id, isID := kv.Key.(*ast.Ident); isID && id.Name == "seedPeers" && eng.IsObj(rinfo, kv.Value, so) {
+						if id, isID := kv.Key.(*ast.Ident); isID && eng.NameOf(id) == "seedPeers" && eng.IsObj(rinfo, kv.Value, so) {
 							okFlow = true
 						}
 					}
@@ -525,7 +514,7 @@ func runC01(c *Ctx) {
 		if okEv {
 			fld := func(e ast.Expr, name string) bool {
 				s, ok := eng.Unparen(e).(*ast.SelectorExpr)
-				return ok && s.Sel.Name == name && eng.IsObj(uinfo, s.X, up)
+				return ok && eng.NameOf(s.Sel) == name && eng.IsObj(uinfo, s.X, up)
 			}
 			a := calls[0].Args
 			okEv = fld(a[0], "cause") && fld(a[2], "heard") && isNil(uinfo, a[3]) && fld(a[4], "queried") && fld(a[5], "unreachable")
@@ -645,7 +634,7 @@ func c01R5(c *Ctx) {
 			if !isSel {
 				break
 			}
-			fld := s.Sel.Name
+			fld := eng.NameOf(s.Sel)
 			okT := want[fld] == st.Name() && rg.Value != nil && eng.SameExpr(uinfo, call.Args[0], rg.Value)
 			g, _ := ucf.Guarded(ucf.LocOf(call), func(ft eng.Fact) bool {
 				x, y, equal, isEq := ft.EqFact()
@@ -669,11 +658,12 @@ func c01R5(c *Ctx) {
 
 // c15QueryFilter: the query filter (or being the target) dominates adding a response peer.
 func c15QueryFilter(c *Ctx) {
-	f := c.Fn("(*dht.query).queryPeer")
+	rc := findRespColl(c)
+	f := rc.F
 	info := f.Info()
 	cf := f.CFG()
 	n := 0
-	for _, as := range assignsTo(f, func(l ast.Expr) bool { id, ok := l.(*ast.Ident); return ok && id.Name == "saw" }) {
+	for _, as := range assignsTo(f, func(l ast.Expr) bool { return rc.Saw != nil && eng.IsObj(info, l, rc.Saw) }) {
 		if _, isApp := eng.IsCallTo(info, as.Rhs[0], "builtin.append"); !isApp {
 			continue
 		}
